@@ -289,3 +289,735 @@ Proof.
   { destruct v as [x|]; cbn [fst snd opt]; [rewrite (IHv x eq_refl Hv)|]; reflexivity. }
   rewrite Ek, Ev, (extra_slot_rt ex Hex). reflexivity.
 Qed.
+
+Lemma enc_cv_list_eq l :
+  (fix go (l : list cvdesc) : list wval := match l with [] => [] | x :: r => enc_cvdesc x :: go r end) l = map enc_cvdesc l.
+Proof. induction l as [|x r IH]; [reflexivity|]. cbn [map]. rewrite <- IH. reflexivity. Qed.
+
+Lemma enc_cv_map_eq m :
+  (fix go (l : list (cvdesc * cvdesc)) : list (wval * wval) :=
+     match l with [] => [] | (k, v) :: r => (enc_cvdesc k, enc_cvdesc v) :: go r end) m =
+  map (fun kv => (enc_cvdesc (fst kv), enc_cvdesc (snd kv))) m.
+Proof. induction m as [|[k v] r IH]; [reflexivity|]. cbn [map fst snd]. rewrite <- IH. reflexivity. Qed.
+
+Lemma cv_list_ok l :
+  (fix go (l0 : list cvdesc) : bool := match l0 with [] => true | x :: r => cvdesc_ok x && go r end) l = true ->
+  Forall (fun c => cvdesc_ok c = true) l.
+Proof.
+  induction l as [|x r IH]; intro H; constructor; apply andb_true_iff in H as [Hx Hr]; [exact Hx|exact (IH Hr)].
+Qed.
+
+Lemma cv_map_ok m :
+  (fix go (l : list (cvdesc * cvdesc)) : bool :=
+     match l with [] => true | (k, v) :: r => cvdesc_ok k && cvdesc_ok v && go r end) m = true ->
+  Forall (fun kv => cvdesc_ok (fst kv) = true /\ cvdesc_ok (snd kv) = true) m.
+Proof.
+  induction m as [|[k v] r IH]; intro H; constructor.
+  - apply andb_true_iff in H as [H _]. apply andb_true_iff in H as [Hk Hv]. split; assumption.
+  - apply andb_true_iff in H as [_ Hr]. exact (IH Hr).
+Qed.
+
+Lemma dec_cv_pairs_rt m :
+  Forall (fun kv : cvdesc * cvdesc => dec_cvdesc (enc_cvdesc (fst kv)) = Some (fst kv) /\
+                                      dec_cvdesc (enc_cvdesc (snd kv)) = Some (snd kv)) m ->
+  (fix go (l1 : list (wval * wval)) : option (list (cvdesc * cvdesc)) :=
+     match l1 with
+     | [] => Some []
+     | (k, v) :: r =>
+         match dec_cvdesc k with
+         | Some a => match dec_cvdesc v with
+                     | Some b0 => match go r with Some rs => Some ((a, b0) :: rs) | None => None end
+                     | None => None end
+         | None => None end
+     end) (map (fun kv => (enc_cvdesc (fst kv), enc_cvdesc (snd kv))) m) = Some m.
+Proof.
+  induction 1 as [|[k v] r [Hk Hv] _ IH]; [reflexivity|]. cbn [map fst snd] in *. rewrite Hk, Hv, IH. reflexivity.
+Qed.
+
+Lemma cvdesc_rt : forall c, cvdesc_ok c = true -> dec_cvdesc (enc_cvdesc c) = Some c.
+Proof.
+  induction c as [ty dbl int str b l m id ex IHl IHm] using cvdesc_ind'. cbn [cvdesc_ok]. intro H.
+  apply andb_true_iff in H as [H Hex]. apply andb_true_iff in H as [H Hm]. apply andb_true_iff in H as [Hty Hl].
+  cbn [enc_cvdesc]. unfold wstruct. cbn [dec_cvdesc]. gets.
+  rewrite (wrap32_small ty) by (apply in_srangeb_spec; exact Hty).
+  assert (El : match l with
+               | Some l0 => d_list dec_cvdesc (WList T_STRUCT (map enc_cvdesc l0)) = Some l0
+               | None => True end).
+  { destruct l as [l0|]; [|exact I]. unfold d_list. apply mapo_map.
+    pose proof (IHl l0 eq_refl) as F. pose proof (cv_list_ok l0 Hl) as G.
+    clear - F G. induction F as [|x r Hx _ IH]; constructor; inversion G; subst; auto. }
+  assert (Em : match m with
+               | Some m0 => Forall (fun kv : cvdesc * cvdesc => dec_cvdesc (enc_cvdesc (fst kv)) = Some (fst kv) /\
+                                                                  dec_cvdesc (enc_cvdesc (snd kv)) = Some (snd kv)) m0
+               | None => True end).
+  { destruct m as [m0|]; [|exact I].
+    pose proof (IHm m0 eq_refl) as F. pose proof (cv_map_ok m0 Hm) as G.
+    clear - F G. induction F as [|x r Hx _ IH]; constructor; inversion G; subst; [tauto|auto]. }
+  destruct l as [l0|]; destruct m as [m0|]; cbn [fst snd opt];
+    rewrite ?enc_cv_list_eq, ?enc_cv_map_eq, ?El, ?(dec_cv_pairs_rt _ Em), (extra_slot_rt ex Hex); reflexivity.
+Qed.
+
+Ltac bsplit := repeat match goal with H : _ && _ = true |- _ => apply andb_true_iff in H; destruct H end.
+
+Lemma d_list_ok {A} (d : wval -> option A) (e : A -> wval) (ok : A -> bool) l :
+  (forall x, ok x = true -> d (e x) = Some x) -> forallb ok l = true -> d_list d (w_structs e l) = Some l.
+Proof.
+  intros H Hl. apply d_list_structs_in. apply Forall_forall. intros x Hx. apply H.
+  rewrite forallb_forall in Hl. apply Hl. exact Hx.
+Qed.
+
+Lemma opt_slot_rt {A} (d : wval -> option A) (e : A -> wval) (ok : A -> bool) (o : option A) :
+  (forall x, ok x = true -> d (e x) = Some x) ->
+  match o with Some x => ok x | None => true end = true ->
+  opt (if snd (s_opt e o) then None else Some (d (fst (s_opt e o)))) = Some o.
+Proof.
+  intros H Ho. destruct o as [x|]; cbn [s_opt fst snd opt]; [rewrite (H x Ho)|]; reflexivity.
+Qed.
+
+Lemma constdesc_rt c : constdesc_ok c = true -> dec_constdesc (enc_constdesc c) = Some c.
+Proof.
+  destruct c as [p n t v an cm ex]. unfold constdesc_ok. cbn [cd_type cd_value cd_annos cd_extra]. intro H. bsplit.
+  unfold dec_constdesc, enc_constdesc, wstruct. gets. cbn [cd_filepath cd_name cd_type cd_value cd_annos cd_comments cd_extra].
+  rewrite tdesc_rt, cvdesc_rt, d_annos_rt, extra_slot_rt by assumption. reflexivity.
+Qed.
+
+Lemma typedefdesc_rt t : typedefdesc_ok t = true -> dec_typedefdesc (enc_typedefdesc t) = Some t.
+Proof.
+  destruct t as [p ty a an cm ex]. unfold typedefdesc_ok. cbn [tdd_type tdd_annos tdd_extra]. intro H. bsplit.
+  unfold dec_typedefdesc, enc_typedefdesc, wstruct. gets. cbn [tdd_filepath tdd_type tdd_alias tdd_annos tdd_comments tdd_extra].
+  rewrite tdesc_rt, d_annos_rt, extra_slot_rt by assumption. reflexivity.
+Qed.
+
+Lemma enumvaluedesc_rt v : enumvaluedesc_ok v = true -> dec_enumvaluedesc (enc_enumvaluedesc v) = Some v.
+Proof.
+  destruct v as [p n z an cm ex]. unfold enumvaluedesc_ok. cbn [evd_annos evd_extra]. intro H. bsplit.
+  unfold dec_enumvaluedesc, enc_enumvaluedesc, wstruct. gets. cbn [evd_filepath evd_name evd_value evd_annos evd_comments evd_extra].
+  rewrite d_annos_rt, extra_slot_rt by assumption. reflexivity.
+Qed.
+
+Lemma enumdesc_rt e : enumdesc_ok e = true -> dec_enumdesc (enc_enumdesc e) = Some e.
+Proof.
+  destruct e as [p n vs an cm ex]. unfold enumdesc_ok. cbn [ed_values ed_annos ed_extra]. intro H. bsplit.
+  unfold dec_enumdesc, enc_enumdesc, wstruct. gets. cbn [ed_filepath ed_name ed_values ed_annos ed_comments ed_extra].
+  rewrite (d_list_ok _ _ enumvaluedesc_ok vs enumvaluedesc_rt), d_annos_rt, extra_slot_rt by assumption. reflexivity.
+Qed.
+
+Lemma fielddesc_rt f : fielddesc_ok f = true -> dec_fielddesc (enc_fielddesc f) = Some f.
+Proof.
+  destruct f as [p n t r i d an cm ex]. unfold fielddesc_ok. cbn [fld_type fld_default fld_annos fld_extra]. intro H. bsplit.
+  unfold dec_fielddesc, enc_fielddesc, wstruct. gets.
+  cbn [fld_filepath fld_name fld_type fld_req fld_id fld_default fld_annos fld_comments fld_extra].
+  rewrite tdesc_rt, (opt_slot_rt dec_cvdesc enc_cvdesc cvdesc_ok d cvdesc_rt), d_annos_rt, extra_slot_rt by assumption. reflexivity.
+Qed.
+
+Lemma fielddescs_rt l : forallb fielddesc_ok l = true -> dec_fielddescs (enc_fielddescs l) = Some l.
+Proof. apply d_list_ok. exact fielddesc_rt. Qed.
+
+Lemma structdesc_rt s : structdesc_ok s = true -> dec_structdesc (enc_structdesc s) = Some s.
+Proof.
+  destruct s as [p n fs an cm ex]. unfold structdesc_ok. cbn [sd_fields sd_annos sd_extra]. intro H. bsplit.
+  unfold dec_structdesc, enc_structdesc, wstruct. gets. cbn [sd_filepath sd_name sd_fields sd_annos sd_comments sd_extra].
+  rewrite fielddescs_rt, d_annos_rt, extra_slot_rt by assumption. reflexivity.
+Qed.
+
+Lemma methoddesc_rt m : methoddesc_ok m = true -> dec_methoddesc (enc_methoddesc m) = Some m.
+Proof.
+  destruct m as [p n r a an cm t o ex]. unfold methoddesc_ok. cbn [md_response md_args md_annos md_throws md_extra]. intro H. bsplit.
+  unfold dec_methoddesc, enc_methoddesc, wstruct. gets.
+  cbn [md_filepath md_name md_response md_args md_annos md_comments md_throws md_oneway md_extra].
+  rewrite (opt_slot_rt dec_tdesc enc_tdesc tdesc_ok r tdesc_rt), !fielddescs_rt, d_annos_rt, extra_slot_rt by assumption. reflexivity.
+Qed.
+
+Lemma servicedesc_rt s : servicedesc_ok s = true -> dec_servicedesc (enc_servicedesc s) = Some s.
+Proof.
+  destruct s as [p n ms an cm ex b]. unfold servicedesc_ok. cbn [svd_methods svd_annos svd_extra]. intro H. bsplit.
+  unfold dec_servicedesc, enc_servicedesc, wstruct. gets.
+  cbn [svd_filepath svd_name svd_methods svd_annos svd_comments svd_extra svd_base].
+  rewrite (d_list_ok _ _ methoddesc_ok ms methoddesc_rt), d_annos_rt, extra_slot_rt by assumption.
+  destruct b; reflexivity.
+Qed.
+
+Theorem fdesc_rt d : fdesc_ok d = true -> dec_fdesc (enc_fdesc d) = Some d.
+Proof.
+  destruct d as [p inc ns sv st xs en td un cs ex]. unfold fdesc_ok.
+  cbn [fdc_includes fdc_namespaces fdc_services fdc_structs fdc_exceptions fdc_enums fdc_typedefs fdc_unions fdc_consts fdc_extra].
+  intro H. bsplit.
+  unfold dec_fdesc, enc_fdesc, wstruct. gets.
+  cbn [fdc_filepath fdc_includes fdc_namespaces fdc_services fdc_structs fdc_exceptions fdc_enums fdc_typedefs fdc_unions fdc_consts fdc_extra].
+  rewrite !d_strmap by assumption.
+  rewrite (d_list_ok _ _ servicedesc_ok sv servicedesc_rt), !(d_list_ok _ _ structdesc_ok _ structdesc_rt),
+    (d_list_ok _ _ enumdesc_ok en enumdesc_rt), (d_list_ok _ _ typedefdesc_ok td typedefdesc_rt),
+    (d_list_ok _ _ constdesc_ok cs constdesc_rt), extra_slot_rt by assumption.
+  reflexivity.
+Qed.
+
+Lemma weq_mod_refl : forall v, weq_mod false v v = true.
+Proof.
+  fix IH 1. intros [b|z|z|z|z|z|s|fs|kt vt kvs|et l|et l]; cbn [weq_mod].
+  - destruct b; reflexivity.
+  - apply Z.eqb_refl.
+  - apply Z.eqb_refl.
+  - apply Z.eqb_refl.
+  - apply Z.eqb_refl.
+  - apply Z.eqb_refl.
+  - apply beqb_refl.
+  - induction fs as [|[[t i] x] r IHr]; [reflexivity|].
+    rewrite ttype_eqb_refl, Z.eqb_refl, IH, IHr. reflexivity.
+  - rewrite !ttype_eqb_refl. cbn [andb].
+    induction kvs as [|[k x] r IHr]; [reflexivity|].
+    rewrite !IH. cbn [andb]. exact IHr.
+  - rewrite ttype_eqb_refl. cbn [andb]. induction l as [|x r IHr]; [reflexivity|]. rewrite IH, IHr. reflexivity.
+  - rewrite ttype_eqb_refl. cbn [andb]. induction l as [|x r IHr]; [reflexivity|]. rewrite IH, IHr. reflexivity.
+Qed.
+
+Lemma fdesc_equiv_refl d : fdesc_equiv d d = true.
+Proof. apply weq_mod_refl. Qed.
+
+(* ---- through bytes and gzip ---- *)
+
+Lemma enc_fdesc_struct d : exists fs, enc_fdesc d = WStruct fs.
+Proof. unfold enc_fdesc, wstruct. eexists. reflexivity. Qed.
+
+(* the bytes of meta.Marshal, followed by anything, read back to the descriptor *)
+Theorem meta_roundtrip d rest :
+  fdesc_ok d = true -> wfb (enc_fdesc d) = true -> meta_unmarshal (meta_marshal d ++ rest) = Some d.
+Proof.
+  intros Hok Hwf. unfold meta_unmarshal, meta_marshal.
+  destruct (enc_fdesc_struct d) as [fs Hfs]. rewrite Hfs.
+  rewrite dec_struct_enc by (rewrite <- Hfs; apply wfb_sound; exact Hwf).
+  rewrite <- Hfs. apply fdesc_rt. exact Hok.
+Qed.
+
+Section Gzip.
+  Variable zip : bytes -> bytes.
+  Variable unzip : bytes -> option bytes.
+  Hypothesis unzip_zip : forall x, unzip (zip x) = Some x.
+
+  Theorem marshal_roundtrip d :
+    fdesc_ok d = true -> wfb (enc_fdesc d) = true -> unmarshal unzip (marshal zip d) = Some d.
+  Proof.
+    intros Hok Hwf. unfold unmarshal, marshal. rewrite unzip_zip.
+    rewrite <- (app_nil_r (meta_marshal d)). apply meta_roundtrip; assumption.
+  Qed.
+
+  Corollary marshal_roundtrip_mod_order d :
+    fdesc_ok d = true -> wfb (enc_fdesc d) = true ->
+    exists d', unmarshal unzip (marshal zip d) = Some d' /\ fdesc_equiv d' d = true.
+  Proof. intros Hok Hwf. exists d. split; [apply marshal_roundtrip; assumption|apply fdesc_equiv_refl]. Qed.
+End Gzip.
+
+(* ---- what GetFileDescriptor builds is such a descriptor ---- *)
+
+Lemma update_keys {A} k (v : A) m :
+  map fst (update k v m) = if existsb (beqb k) (map fst m) then map fst m else map fst m ++ [k].
+Proof.
+  induction m as [|[k' v'] m IH]; cbn [update map fst existsb]; [reflexivity|].
+  destruct (beqb k k') eqn:E; cbn [orb map fst]; [apply beqb_true in E; subst; reflexivity|].
+  rewrite IH. destruct (existsb (beqb k) (map fst m)); reflexivity.
+Qed.
+
+Lemma update_nodup {A} k (v : A) m : NoDup (map fst m) -> NoDup (map fst (update k v m)).
+Proof.
+  intro H. rewrite update_keys. destruct (existsb (beqb k) (map fst m)) eqn:E; [exact H|].
+  apply (Permutation_NoDup (l := k :: map fst m)).
+  - apply Permutation_cons_append.
+  - constructor; [|exact H]. intro Hin. apply existsb_beqb_In in Hin. congruence.
+Qed.
+
+Lemma fold_update_nodup {A B} (step : smap B -> A -> smap B) (l : list A) :
+  (forall m x, NoDup (map fst m) -> NoDup (map fst (step m x))) ->
+  forall acc, NoDup (map fst acc) -> NoDup (map fst (fold_left step l acc)).
+Proof. intro H. induction l as [|x l IH]; intros acc Ha; cbn [fold_left]; [exact Ha|]. apply IH. apply H. exact Ha. Qed.
+
+Lemma annos_map_ok a : smap_ok (annos_map a) = true.
+Proof.
+  apply nodupb_NoDup. unfold annos_map. apply fold_update_nodup; [|constructor].
+  intros m x Hm. apply update_nodup. exact Hm.
+Qed.
+
+Lemma includes_map_ok f : smap_ok (includes_map f) = true.
+Proof.
+  apply nodupb_NoDup. unfold includes_map. apply fold_update_nodup; [|constructor].
+  intros m x Hm. apply update_nodup. exact Hm.
+Qed.
+
+Lemma namespaces_map_ok f : smap_ok (namespaces_map f) = true.
+Proof.
+  apply nodupb_NoDup. unfold namespaces_map. apply fold_update_nodup; [|constructor].
+  intros m x Hm. destruct (lookup (ns_language x) m); [destruct (beqb (ns_language x) s_star)|];
+    try apply update_nodup; exact Hm.
+Qed.
+
+Lemma type_desc_ok p : forall t, tdesc_ok (type_desc p t) = true.
+Proof.
+  induction t as [n k v c an cat r td IHk IHv] using ty_ind'. cbn [type_desc tdesc_ok extra_ok].
+  destruct k as [x|]; destruct v as [y|]; rewrite ?IHk, ?IHv by reflexivity; reflexivity.
+Qed.
+
+Lemma cv_desc_list_eq l :
+  (fix go (l : list const_value) : list cvdesc := match l with [] => [] | x :: r => cv_desc x :: go r end) l = map cv_desc l.
+Proof. induction l as [|x r IH]; [reflexivity|]. cbn [map]. rewrite <- IH. reflexivity. Qed.
+Lemma cv_desc_map_eq l :
+  (fix go (l : list (const_value * const_value)) : list (cvdesc * cvdesc) :=
+     match l with [] => [] | (k, v) :: r => (cv_desc k, cv_desc v) :: go r end) l =
+  map (fun kv => (cv_desc (fst kv), cv_desc (snd kv))) l.
+Proof. induction l as [|[k v] r IH]; [reflexivity|]. cbn [map fst snd]. rewrite <- IH. reflexivity. Qed.
+
+Lemma cv_desc_ok : forall c, cvdesc_ok (cv_desc c) = true.
+Proof.
+  induction c as [b|z|s|s e|l IH|l IH] using const_value_ind'; cbn [cv_desc]; try reflexivity.
+  - destruct (beqb s s_false); [reflexivity|]. destruct (beqb s s_true); reflexivity.
+  - rewrite cv_desc_list_eq. cbn [cvdesc_ok extra_ok]. rewrite andb_true_r.
+    change (in_srangeb 4 CVT_LIST) with true. cbn [andb].
+    induction IH as [|x r Hx _ IHr]; [reflexivity|]. cbn [map]. rewrite Hx. exact IHr.
+  - rewrite cv_desc_map_eq. cbn [cvdesc_ok extra_ok]. rewrite andb_true_r.
+    change (in_srangeb 4 CVT_MAP) with true. cbn [andb].
+    induction IH as [|[k v] r [Hk Hv] _ IHr]; [reflexivity|]. cbn [map fst snd] in *. rewrite Hk, Hv. exact IHr.
+Qed.
+
+Lemma forallb_map_true {A B} (f : A -> B) (ok : B -> bool) l : (forall x, ok (f x) = true) -> forallb ok (map f l) = true.
+Proof. intro H. induction l as [|x l IH]; [reflexivity|]. cbn [map forallb]. rewrite H, IH. reflexivity. Qed.
+
+Lemma field_desc_ok p f : fielddesc_ok (field_desc p f) = true.
+Proof.
+  unfold fielddesc_ok, field_desc. cbn [fld_type fld_default fld_annos fld_extra extra_ok].
+  rewrite type_desc_ok, annos_map_ok. destruct (fd_default f); cbn [omap]; [rewrite cv_desc_ok|]; reflexivity.
+Qed.
+Lemma struct_desc_ok p s : structdesc_ok (struct_desc p s) = true.
+Proof.
+  unfold structdesc_ok, struct_desc. cbn [sd_fields sd_annos sd_extra extra_ok].
+  rewrite annos_map_ok, forallb_map_true by (apply field_desc_ok). reflexivity.
+Qed.
+Lemma enum_desc_ok p e : enumdesc_ok (enum_desc p e) = true.
+Proof.
+  unfold enumdesc_ok, enum_desc. cbn [ed_values ed_annos ed_extra extra_ok].
+  rewrite annos_map_ok, forallb_map_true; [reflexivity|].
+  intro v. unfold enumvaluedesc_ok, enum_value_desc. cbn [evd_annos evd_extra extra_ok]. rewrite annos_map_ok. reflexivity.
+Qed.
+Lemma typedef_desc_ok p t : typedefdesc_ok (typedef_desc p t) = true.
+Proof. unfold typedefdesc_ok, typedef_desc. cbn [tdd_type tdd_annos tdd_extra extra_ok]. rewrite type_desc_ok, annos_map_ok. reflexivity. Qed.
+Lemma method_desc_ok p fn : methoddesc_ok (method_desc p fn) = true.
+Proof.
+  unfold methoddesc_ok, method_desc. cbn [md_response md_args md_annos md_throws md_extra extra_ok].
+  rewrite type_desc_ok, annos_map_ok, !forallb_map_true by (apply field_desc_ok). reflexivity.
+Qed.
+Lemma service_desc_ok p s : servicedesc_ok (service_desc p s) = true.
+Proof.
+  unfold servicedesc_ok, service_desc. cbn [svd_methods svd_annos svd_extra extra_ok].
+  rewrite annos_map_ok, forallb_map_true by (apply method_desc_ok). reflexivity.
+Qed.
+Lemma const_desc_ok p c : constdesc_ok (const_desc p c) = true.
+Proof. unfold constdesc_ok, const_desc. cbn [cd_type cd_value cd_annos cd_extra extra_ok]. rewrite type_desc_ok, cv_desc_ok, annos_map_ok. reflexivity. Qed.
+
+(* every descriptor GetFileDescriptor builds is in the domain of the round trip *)
+Theorem descriptor_of_ok f : fdesc_ok (descriptor_of f) = true.
+Proof.
+  unfold fdesc_ok, descriptor_of.
+  cbn [fdc_includes fdc_namespaces fdc_services fdc_structs fdc_exceptions fdc_enums fdc_typedefs fdc_unions fdc_consts fdc_extra extra_ok].
+  rewrite includes_map_ok, namespaces_map_ok.
+  rewrite (forallb_map_true _ servicedesc_ok) by (apply service_desc_ok).
+  rewrite !(forallb_map_true _ structdesc_ok) by (apply struct_desc_ok).
+  rewrite (forallb_map_true _ enumdesc_ok) by (apply enum_desc_ok).
+  rewrite (forallb_map_true _ typedefdesc_ok) by (apply typedef_desc_ok).
+  rewrite (forallb_map_true _ constdesc_ok) by (apply const_desc_ok).
+  reflexivity.
+Qed.
+
+(* ================================================================ 3. descriptor_of states the IDL *)
+
+Lemma annos_map_faithful a : annos_ok a = true -> annos_map a = annx_of_annos a.
+Proof.
+  intro H. apply nodupb_NoDup in H. unfold annos_map, annx_of_annos. apply fold_update_map. exact H.
+Qed.
+
+Lemma tyx_type_desc p : forall t, tyx_of_tdesc (type_desc p t) = tyx_of_ty t.
+Proof.
+  induction t as [n k v c an cat r td IHk IHv] using ty_ind'. cbn [type_desc tyx_of_tdesc tyx_of_ty].
+  destruct k as [x|]; destruct v as [y|]; rewrite ?(IHk _ eq_refl), ?(IHv _ eq_refl); reflexivity.
+Qed.
+
+Lemma cvx_of_cv_list_eq l :
+  (fix go (l : list const_value) : list cvx := match l with [] => [] | x :: r => cvx_of_cv x :: go r end) l = map cvx_of_cv l.
+Proof. induction l as [|x r IH]; [reflexivity|]. cbn [map]. rewrite <- IH. reflexivity. Qed.
+Lemma cvx_of_cv_map_eq l :
+  (fix go (l : list (const_value * const_value)) : list (cvx * cvx) :=
+     match l with [] => [] | (k, v) :: r => (cvx_of_cv k, cvx_of_cv v) :: go r end) l =
+  map (fun kv => (cvx_of_cv (fst kv), cvx_of_cv (snd kv))) l.
+Proof. induction l as [|[k v] r IH]; [reflexivity|]. cbn [map fst snd]. rewrite <- IH. reflexivity. Qed.
+Lemma cvx_of_cvdesc_list_eq l :
+  (fix go (l : list cvdesc) : list cvx := match l with [] => [] | x :: r => cvx_of_cvdesc x :: go r end) l = map cvx_of_cvdesc l.
+Proof. induction l as [|x r IH]; [reflexivity|]. cbn [map]. rewrite <- IH. reflexivity. Qed.
+Lemma cvx_of_cvdesc_map_eq l :
+  (fix go (l : list (cvdesc * cvdesc)) : list (cvx * cvx) :=
+     match l with [] => [] | (k, v) :: r => (cvx_of_cvdesc k, cvx_of_cvdesc v) :: go r end) l =
+  map (fun kv => (cvx_of_cvdesc (fst kv), cvx_of_cvdesc (snd kv))) l.
+Proof. induction l as [|[k v] r IH]; [reflexivity|]. cbn [map fst snd]. rewrite <- IH. reflexivity. Qed.
+
+Lemma cvx_cv_desc : forall c, cvx_of_cvdesc (cv_desc c) = cvx_of_cv c.
+Proof.
+  induction c as [b|z|s|s e|l IH|l IH] using const_value_ind'; cbn [cv_desc cvx_of_cv]; try reflexivity.
+  - destruct (beqb s s_false); [reflexivity|]. destruct (beqb s s_true); reflexivity.
+  - rewrite cv_desc_list_eq, cvx_of_cv_list_eq. cbn [cvx_of_cvdesc]. change (CVT_LIST =? CVT_DOUBLE) with false.
+    cbn [Z.eqb CVT_LIST CVT_INT CVT_STRING CVT_BOOL Pos.eqb]. rewrite cvx_of_cvdesc_list_eq, map_map. f_equal.
+    induction IH as [|x r Hx _ IHr]; [reflexivity|]. cbn [map]. rewrite Hx, IHr. reflexivity.
+  - rewrite cv_desc_map_eq, cvx_of_cv_map_eq. cbn [cvx_of_cvdesc].
+    cbn [Z.eqb CVT_MAP CVT_DOUBLE CVT_LIST CVT_INT CVT_STRING CVT_BOOL Pos.eqb]. rewrite cvx_of_cvdesc_map_eq, map_map. f_equal.
+    induction IH as [|[k v] r [Hk Hv] _ IHr]; [reflexivity|]. cbn [map fst snd] in *. rewrite Hk, Hv, IHr. reflexivity.
+Qed.
+
+Lemma req_roundtrip r : req_of_string (req_string r) = Some r.
+Proof. destruct r; vm_compute; reflexivity. Qed.
+
+Lemma fieldx_field_desc p f : field_annos_ok f = true -> fieldx_of_desc (field_desc p f) = fieldx_of f.
+Proof.
+  unfold field_annos_ok. intro H. unfold fieldx_of_desc, field_desc, fieldx_of.
+  cbn [fld_name fld_id fld_req fld_type fld_default fld_annos fld_comments].
+  rewrite req_roundtrip, tyx_type_desc, annos_map_faithful by exact H.
+  destruct (fd_default f); cbn [omap]; [rewrite cvx_cv_desc|]; reflexivity.
+Qed.
+
+Lemma map_map_in {A B C} (f : A -> B) (g : B -> C) (h : A -> C) l :
+  (forall x, In x l -> g (f x) = h x) -> map g (map f l) = map h l.
+Proof. intro H. rewrite map_map. apply map_ext_in. exact H. Qed.
+
+Lemma fieldsx p l : forallb field_annos_ok l = true -> map fieldx_of_desc (map (field_desc p) l) = map fieldx_of l.
+Proof.
+  intro H. apply map_map_in. intros x Hx. apply fieldx_field_desc. rewrite forallb_forall in H. apply H. exact Hx.
+Qed.
+
+Lemma structx_struct_desc p s :
+  annos_ok (sl_annos s) && forallb field_annos_ok (sl_fields s) = true -> structx_of_desc (struct_desc p s) = structx_of s.
+Proof.
+  intro H. apply andb_true_iff in H as [Ha Hf]. unfold structx_of_desc, struct_desc, structx_of.
+  cbn [sd_name sd_fields sd_annos sd_comments]. rewrite fieldsx, annos_map_faithful by assumption. reflexivity.
+Qed.
+
+Lemma enumx_enum_desc p e :
+  annos_ok (en_annos e) && forallb (fun v => annos_ok (ev_annos v)) (en_values e) = true -> enumx_of_desc (enum_desc p e) = enumx_of e.
+Proof.
+  intro H. apply andb_true_iff in H as [Ha Hv]. unfold enumx_of_desc, enum_desc, enumx_of.
+  cbn [ed_name ed_values ed_annos ed_comments]. rewrite annos_map_faithful by exact Ha. f_equal.
+  apply map_map_in. intros v Hin. unfold enumvaluex_of_desc, enum_value_desc, enumvaluex_of.
+  cbn [evd_name evd_value evd_annos evd_comments]. rewrite annos_map_faithful; [reflexivity|].
+  rewrite forallb_forall in Hv. apply Hv. exact Hin.
+Qed.
+
+Lemma typedefx_typedef_desc p t : annos_ok (td_annos t) = true -> typedefx_of_desc (typedef_desc p t) = typedefx_of t.
+Proof.
+  intro H. unfold typedefx_of_desc, typedef_desc, typedefx_of. cbn [tdd_alias tdd_type tdd_annos tdd_comments].
+  rewrite tyx_type_desc, annos_map_faithful by exact H. reflexivity.
+Qed.
+
+Lemma methodx_method_desc p fn :
+  annos_ok (fn_annos fn) && forallb field_annos_ok (fn_args fn) && forallb field_annos_ok (fn_throws fn) = true ->
+  methodx_of_desc (method_desc p fn) = methodx_of fn.
+Proof.
+  intro H. apply andb_true_iff in H as [H Ht]. apply andb_true_iff in H as [Ha Hg].
+  unfold methodx_of_desc, method_desc, methodx_of. cbn [md_name md_response md_args md_throws md_oneway md_annos md_comments omap].
+  rewrite tyx_type_desc, !fieldsx, annos_map_faithful by assumption. reflexivity.
+Qed.
+
+Lemma servicex_service_desc p s :
+  annos_ok (sv_annos s) &&
+  forallb (fun fn => annos_ok (fn_annos fn) && forallb field_annos_ok (fn_args fn) && forallb field_annos_ok (fn_throws fn)) (sv_functions s) = true ->
+  servicex_of_desc (service_desc p s) = servicex_of s.
+Proof.
+  intro H. apply andb_true_iff in H as [Ha Hf]. unfold servicex_of_desc, service_desc, servicex_of.
+  cbn [svd_name svd_base svd_methods svd_annos svd_comments]. rewrite annos_map_faithful by exact Ha. f_equal.
+  apply map_map_in. intros fn Hin. apply methodx_method_desc. rewrite forallb_forall in Hf. apply Hf. exact Hin.
+Qed.
+
+Lemma constx_const_desc p c : annos_ok (co_annos c) = true -> constx_of_desc (const_desc p c) = constx_of c.
+Proof.
+  intro H. unfold constx_of_desc, const_desc, constx_of. cbn [cd_name cd_type cd_value cd_annos cd_comments].
+  rewrite tyx_type_desc, cvx_cv_desc, annos_map_faithful by exact H. reflexivity.
+Qed.
+
+(* ---- namespaces ---- *)
+
+Lemma dedup_snoc : forall l seen x,
+  dedup seen (l ++ [x]) = dedup seen l ++ (if existsb (beqb x) seen || existsb (beqb x) l then [] else [x]).
+Proof.
+  induction l as [|y r IH]; intros seen x; cbn [app dedup existsb].
+  - rewrite orb_false_r. destruct (existsb (beqb x) seen); reflexivity.
+  - destruct (existsb (beqb y) seen) eqn:Ey.
+    + rewrite IH. f_equal. destruct (beqb x y) eqn:Exy; [|reflexivity].
+      apply beqb_true in Exy. subst y. rewrite Ey. reflexivity.
+    + cbn [app]. rewrite IH. cbn [existsb]. f_equal. f_equal.
+      destruct (beqb x y); destruct (existsb (beqb x) seen); destruct (existsb (beqb x) r); reflexivity.
+Qed.
+
+Lemma dedup_In : forall l seen x, In x (dedup seen l) <-> In x l /\ ~ In x seen.
+Proof.
+  induction l as [|y r IH]; intros seen x; cbn [dedup In]; [tauto|].
+  destruct (existsb (beqb y) seen) eqn:Ey.
+  - rewrite IH. apply existsb_beqb_In in Ey. split; [tauto|]. intros [[->|H] Hn]; [contradiction|tauto].
+  - cbn [In]. rewrite IH. cbn [In].
+    assert (Hy : ~ In y seen) by (intro Hin; apply existsb_beqb_In in Hin; congruence).
+    split.
+    + intros [->|[H Hn]]; [tauto|]. split; [tauto|]. intro Hs. apply Hn. right. exact Hs.
+    + intros [[->|H] Hn]; [left; reflexivity|].
+      destruct (beqb y x) eqn:E; [apply beqb_true in E; left; exact E|].
+      right. split; [exact H|]. intros [->|Hs]; [rewrite beqb_refl in E; discriminate|contradiction].
+Qed.
+
+Lemma dedup_NoDup : forall l seen, NoDup (dedup seen l).
+Proof.
+  induction l as [|y r IH]; intro seen; cbn [dedup]; [constructor|].
+  destruct (existsb (beqb y) seen); [apply IH|]. constructor; [|apply IH].
+  rewrite dedup_In. cbn [In]. tauto.
+Qed.
+
+Lemma find_snoc {A} (p : A -> bool) l x :
+  find p (l ++ [x]) = match find p l with Some y => Some y | None => if p x then Some x else None end.
+Proof. induction l as [|y r IH]; cbn [app find]; [reflexivity|]. destruct (p y); [reflexivity|exact IH]. Qed.
+
+Lemma find_lang_In l ns : In l (map ns_language ns) <-> find (fun n => beqb (ns_language n) l) ns <> None.
+Proof.
+  induction ns as [|n r IH]; cbn [map In find]; [split; [tauto|congruence]|].
+  destruct (beqb (ns_language n) l) eqn:E.
+  - apply beqb_true in E. split; [congruence|]. intros _. left. exact E.
+  - rewrite <- IH. split; [|tauto]. intros [H|H]; [subst; rewrite beqb_refl in E; discriminate|exact H].
+Qed.
+
+Lemma first_ns_snoc l pre n :
+  first_ns l (pre ++ [n]) =
+  match first_ns l pre with Some x => Some x | None => if beqb (ns_language n) l then Some (ns_name n) else None end.
+Proof.
+  unfold first_ns. rewrite find_snoc. destruct (find (fun n0 => beqb (ns_language n0) l) pre); [reflexivity|].
+  destruct (beqb (ns_language n) l); reflexivity.
+Qed.
+
+Lemma last_ns_snoc l pre n :
+  last_ns l (pre ++ [n]) = if beqb (ns_language n) l then Some (ns_name n) else last_ns l pre.
+Proof.
+  unfold last_ns. rewrite rev_unit. unfold first_ns. cbn [find]. destruct (beqb (ns_language n) l); reflexivity.
+Qed.
+
+Lemma first_ns_In l ns : In l (map ns_language ns) -> first_ns l ns <> None.
+Proof.
+  intro H. apply find_lang_In in H. unfold first_ns. destruct (find (fun n => beqb (ns_language n) l) ns); [discriminate|congruence].
+Qed.
+Lemma first_ns_notIn l ns : ~ In l (map ns_language ns) -> first_ns l ns = None.
+Proof.
+  intro H. unfold first_ns. destruct (find (fun n => beqb (ns_language n) l) ns) eqn:E; [|reflexivity].
+  exfalso. apply H. apply find_lang_In. congruence.
+Qed.
+
+(* the namespace of a language that the prefix already names, after one more line *)
+Lemma ns_of_language_snoc_old l pre n :
+  In l (map ns_language pre) ->
+  ns_of_language l (pre ++ [n]) =
+  if beqb l s_star && beqb (ns_language n) l then ns_name n else ns_of_language l pre.
+Proof.
+  intro Hin. unfold ns_of_language. destruct (beqb l s_star) eqn:Es; cbn [andb].
+  - rewrite last_ns_snoc. destruct (beqb (ns_language n) l); reflexivity.
+  - rewrite first_ns_snoc. pose proof (first_ns_In l pre Hin) as Hf. destruct (first_ns l pre); [reflexivity|congruence].
+Qed.
+
+Lemma ns_of_language_snoc_new pre n :
+  ~ In (ns_language n) (map ns_language pre) -> ns_of_language (ns_language n) (pre ++ [n]) = ns_name n.
+Proof.
+  intro Hn. unfold ns_of_language. destruct (beqb (ns_language n) s_star).
+  - rewrite last_ns_snoc, beqb_refl. reflexivity.
+  - rewrite first_ns_snoc, (first_ns_notIn _ _ Hn), beqb_refl. reflexivity.
+Qed.
+
+Lemma lookup_map_self {A} (g : bytes -> A) l D :
+  lookup l (map (fun x => (x, g x)) D) = if existsb (beqb l) D then Some (g l) else None.
+Proof.
+  induction D as [|y r IH]; cbn [map lookup existsb]; [reflexivity|].
+  destruct (beqb l y) eqn:E; cbn [orb]; [apply beqb_true in E; subst; reflexivity|exact IH].
+Qed.
+
+Lemma update_map_self {A} (g : bytes -> A) l v D :
+  NoDup D -> In l D ->
+  update l v (map (fun x => (x, g x)) D) = map (fun x => (x, if beqb x l then v else g x)) D.
+Proof.
+  induction D as [|y r IH]; intros Hnd Hin; [destruct Hin|]. cbn [map update]. inversion Hnd as [|? ? Hy Hr]; subst.
+  destruct (beqb l y) eqn:E.
+  - apply beqb_true in E. subst y. rewrite beqb_refl. f_equal. apply map_ext_in. intros x Hx.
+    destruct (beqb x l) eqn:E2; [apply beqb_true in E2; subst; contradiction|reflexivity].
+  - rewrite (beqb_sym y l), E. f_equal. apply IH; [exact Hr|]. destruct Hin as [->|H]; [rewrite beqb_refl in E; discriminate|exact H].
+Qed.
+
+Theorem namespaces_faithful f : namespaces_map f = namespaces_x f.
+Proof.
+  unfold namespaces_map, namespaces_x. generalize (f_namespaces f) as ns. clear f.
+  induction ns as [|n pre IH] using rev_ind; [reflexivity|].
+  rewrite fold_left_app. cbn [fold_left]. rewrite IH. clear IH.
+  rewrite map_app. cbn [map]. rewrite dedup_snoc. cbn [existsb orb].
+  set (L := ns_language n). set (D := dedup [] (map ns_language pre)).
+  assert (HD : forall x, In x D <-> In x (map ns_language pre)).
+  { intro x. unfold D. rewrite dedup_In. cbn [In]. tauto. }
+  assert (HDnd : NoDup D) by apply dedup_NoDup.
+  rewrite lookup_map_self.
+  destruct (existsb (beqb L) (map ns_language pre)) eqn:EL.
+  - (* the language was named before *)
+    apply existsb_beqb_In in EL as HLin. assert (HLD : In L D) by (apply HD; exact HLin).
+    assert (E1 : existsb (beqb L) D = true) by (apply existsb_beqb_In; exact HLD).
+    rewrite E1, app_nil_r.
+    destruct (beqb L s_star) eqn:Es.
+    + rewrite (update_map_self _ L (ns_name n) D HDnd HLD). apply map_ext_in. intros x Hx.
+      rewrite ns_of_language_snoc_old by (apply HD; exact Hx). fold L. f_equal.
+      destruct (beqb x L) eqn:Ex.
+      * apply beqb_true in Ex. subst x. rewrite Es, beqb_refl. reflexivity.
+      * rewrite (beqb_sym L x), Ex, andb_false_r. reflexivity.
+    + apply map_ext_in. intros x Hx. rewrite ns_of_language_snoc_old by (apply HD; exact Hx). fold L. f_equal.
+      destruct (beqb x s_star) eqn:Exs; [|reflexivity]. cbn [andb].
+      destruct (beqb L x) eqn:ELx; [|reflexivity]. apply beqb_true in ELx. subst x. congruence.
+  - (* a new language *)
+    assert (HLn : ~ In L (map ns_language pre)) by (intro Hin; apply existsb_beqb_In in Hin; congruence).
+    assert (E1 : existsb (beqb L) D = false).
+    { destruct (existsb (beqb L) D) eqn:E; [|reflexivity]. apply existsb_beqb_In in E. apply HD in E. contradiction. }
+    rewrite E1. rewrite update_notin.
+    + rewrite map_app. cbn [map]. f_equal.
+      * apply map_ext_in. intros x Hx. rewrite ns_of_language_snoc_old by (apply HD; exact Hx). fold L. f_equal.
+        destruct (beqb L x) eqn:ELx; [|rewrite andb_false_r; reflexivity].
+        apply beqb_true in ELx. subst x. exfalso. apply HLn. apply HD. exact Hx.
+      * unfold L. rewrite ns_of_language_snoc_new by exact HLn. reflexivity.
+    + rewrite map_map. cbn [fst]. rewrite map_id. intro Hin. apply HLn. apply HD. exact Hin.
+Qed.
+
+(* ---- splitting at the last dot / slash ---- *)
+
+Definition no_byte (c : byte) (s : bytes) : bool := forallb (fun b => negb (Byte.eqb b c)) s.
+
+Lemma split_on_none c : forall s cur, no_byte c s = true -> split_on c s cur = [rev cur ++ s].
+Proof.
+  induction s as [|b r IH]; intros cur H; cbn [split_on]; [rewrite app_nil_r; reflexivity|].
+  cbn [no_byte forallb] in H. apply andb_true_iff in H as [Hb Hr]. apply negb_true_iff in Hb. rewrite Hb.
+  rewrite IH by exact Hr. cbn [rev]. rewrite <- app_assoc. reflexivity.
+Qed.
+
+Lemma split_on_app c : forall a b cur, split_on c (a ++ c :: b) cur = split_on c a cur ++ split_on c b [].
+Proof.
+  induction a as [|x a IH]; intros b cur; cbn [app split_on].
+  - assert (E : Byte.eqb c c = true) by (apply byte_eqb_eq; reflexivity). rewrite E. reflexivity.
+  - destruct (Byte.eqb x c); [rewrite IH; reflexivity|apply IH].
+Qed.
+
+Definition join_with (c : byte) (l : list bytes) : bytes :=
+  List.concat (match l with [] => [] | x :: r => x :: map (fun p => c :: p) r end).
+
+Lemma split_on_nonempty c : forall s cur, split_on c s cur <> [].
+Proof. induction s as [|b r IH]; intro cur; cbn [split_on]; [discriminate|]. destruct (Byte.eqb b c); [discriminate|apply IH]. Qed.
+
+Lemma join_split c : forall s cur, join_with c (split_on c s cur) = rev cur ++ s.
+Proof.
+  induction s as [|b r IH]; intro cur; cbn [split_on].
+  - unfold join_with. cbn [map List.concat]. rewrite !app_nil_r. reflexivity.
+  - destruct (Byte.eqb b c) eqn:E.
+    + apply byte_eqb_eq in E. subst b. specialize (IH []). cbn [rev app] in IH.
+      unfold join_with in *. destruct (split_on c r []) as [|y ys] eqn:Es; [exfalso; exact (split_on_nonempty c r [] Es)|].
+      cbn [map List.concat] in *. rewrite <- IH. cbn [app]. reflexivity.
+    + rewrite IH. cbn [rev]. rewrite <- app_assoc. reflexivity.
+Qed.
+
+Lemma last_index_split_last c a b : no_byte c b = true -> last_index_split c (a ++ c :: b) = Some (a, b).
+Proof.
+  intro Hb. unfold last_index_split. rewrite split_on_app, (split_on_none c b [] Hb). cbn [rev app].
+  rewrite rev_unit. pose proof (join_split c a []) as J. cbn [rev app] in J.
+  destruct (split_on c a []) as [|x r] eqn:Es; [exfalso; exact (split_on_nonempty c a [] Es)|].
+  rewrite rev_involutive. unfold join_with in J. rewrite J.
+  match goal with |- match ?q with _ => _ end = _ => destruct q as [|y ys] eqn:Er end; [|reflexivity].
+  apply (f_equal (@List.length (list byte))) in Er. rewrite rev_length in Er. discriminate.
+Qed.
+
+Lemma last_index_split_none c s : no_byte c s = true -> last_index_split c s = None.
+Proof. intro H. unfold last_index_split. rewrite (split_on_none c s [] H). reflexivity. Qed.
+
+(* ---- includes ---- *)
+
+Lemma thrift_no_dot : no_byte dot (B "thrift") = true.
+Proof. vm_compute. reflexivity. Qed.
+Lemma thrift_suffix_eq : s_thrift_suffix = dot :: B "thrift".
+Proof. vm_compute. reflexivity. Qed.
+
+(* for a base name that ends in .thrift the key of the include map is the IDL prefix *)
+Lemma alias_is_prefix b :
+  is_prefix (rev s_thrift_suffix) (rev b) = true ->
+  trim_suffix b s_thrift_suffix = match last_index_split dot b with Some (stem, _) => stem | None => b end.
+Proof.
+  intro H. unfold trim_suffix. rewrite H. apply is_prefix_spec in H as [r Hr].
+  assert (Eb : b = rev r ++ s_thrift_suffix).
+  { rewrite <- (rev_involutive b), Hr, rev_app_distr, rev_involutive. reflexivity. }
+  rewrite Eb at 2 3. rewrite thrift_suffix_eq, (last_index_split_last dot (rev r) (B "thrift") thrift_no_dot).
+  rewrite Eb, app_length, Nat.add_sub. rewrite firstn_app, Nat.sub_diag, firstn_all. cbn [firstn]. apply app_nil_r.
+Qed.
+
+Lemma include_alias_prefix i :
+  match in_ref i with
+  | Some p => beqb (base_name (in_path i)) (base_name p) && is_prefix (rev s_thrift_suffix) (rev (base_name p))
+  | None => false end = true ->
+  include_alias (include_path i) = idl_prefix (in_path i).
+Proof.
+  unfold include_path. destruct (in_ref i) as [p|]; [|discriminate]. intro H.
+  apply andb_true_iff in H as [Hb Hs]. apply beqb_true in Hb.
+  unfold include_alias, idl_prefix. rewrite Hb. apply alias_is_prefix. exact Hs.
+Qed.
+
+Theorem includes_faithful f :
+  distinct_basenames f = true -> includes_plain f = true -> includes_map f = includes_x f.
+Proof.
+  unfold distinct_basenames, includes_plain, includes_map, includes_x. intros Hd Hp.
+  apply nodupb_NoDup in Hd. rewrite (fold_update_map _ _ _ Hd).
+  apply map_ext_in. intros i Hi. rewrite forallb_forall in Hp. rewrite (include_alias_prefix i (Hp i Hi)). reflexivity.
+Qed.
+
+(* ---- the whole file ---- *)
+
+Definition forget_includes (x : filex) : filex :=
+  FileX (x_path x) [] (x_namespaces x) (x_structs x) (x_unions x) (x_exceptions x) (x_enums x) (x_typedefs x)
+        (x_services x) (x_consts x).
+
+Lemma struct_likes_ok f :
+  forallb (fun s => annos_ok (sl_annos s) && forallb field_annos_ok (sl_fields s)) (struct_likes f) = true ->
+  map structx_of_desc (map (struct_desc (f_filename f)) (f_structs f)) = map structx_of (f_structs f) /\
+  map structx_of_desc (map (struct_desc (f_filename f)) (f_unions f)) = map structx_of (f_unions f) /\
+  map structx_of_desc (map (struct_desc (f_filename f)) (f_exceptions f)) = map structx_of (f_exceptions f).
+Proof.
+  unfold struct_likes. rewrite !forallb_app. intro H. apply andb_true_iff in H as [Hs H]. apply andb_true_iff in H as [Hu He].
+  repeat split; apply map_map_in; intros s Hin; apply structx_struct_desc;
+    match goal with H : forallb _ ?l = true, Hin : In s ?l |- _ => rewrite forallb_forall in H; apply H; exact Hin end.
+Qed.
+
+(* everything but the includes: for every file *)
+Theorem descriptor_faithful_definitions f :
+  file_annos_ok f = true -> forget_includes (project_d (descriptor_of f)) = forget_includes (project_a f).
+Proof.
+  unfold file_annos_ok. intro H.
+  apply andb_true_iff in H as [H Hsv]. apply andb_true_iff in H as [H Hco]. apply andb_true_iff in H as [H Htd].
+  apply andb_true_iff in H as [Hsl Hen].
+  destruct (struct_likes_ok f Hsl) as [Es [Eu Ex]].
+  unfold forget_includes, project_d, project_a, descriptor_of.
+  cbn [x_path x_namespaces x_structs x_unions x_exceptions x_enums x_typedefs x_services x_consts
+       fdc_filepath fdc_namespaces fdc_structs fdc_unions fdc_exceptions fdc_enums fdc_typedefs fdc_services fdc_consts].
+  rewrite Es, Eu, Ex, namespaces_faithful. f_equal.
+  - apply map_map_in. intros e Hin. apply enumx_enum_desc. rewrite forallb_forall in Hen. apply Hen. exact Hin.
+  - apply map_map_in. intros t Hin. apply typedefx_typedef_desc. rewrite forallb_forall in Htd. apply Htd. exact Hin.
+  - apply map_map_in. intros s Hin. apply servicex_service_desc. rewrite forallb_forall in Hsv. apply Hsv. exact Hin.
+  - apply map_map_in. intros c Hin. apply constx_const_desc. rewrite forallb_forall in Hco. apply Hco. exact Hin.
+Qed.
+
+Lemma forget_includes_eq x y : forget_includes x = forget_includes y -> x_includes x = x_includes y -> x = y.
+Proof. destruct x, y. unfold forget_includes. cbn. intros H E. injection H as -> -> -> -> -> -> -> -> ->. subst. reflexivity. Qed.
+
+Theorem descriptor_faithful f :
+  file_annos_ok f = true -> distinct_basenames f = true -> includes_plain f = true ->
+  project_d (descriptor_of f) = project_a f.
+Proof.
+  intros Ha Hd Hp. apply forget_includes_eq; [apply descriptor_faithful_definitions; exact Ha|].
+  unfold project_d, project_a, descriptor_of. cbn [x_includes fdc_includes]. apply includes_faithful; assumption.
+Qed.
+
+(* two files with the same descriptor state the same; a difference in anything the property names
+   shows in the descriptor *)
+Theorem descriptor_of_injective_on_projection f g :
+  file_annos_ok f = true -> distinct_basenames f = true -> includes_plain f = true ->
+  file_annos_ok g = true -> distinct_basenames g = true -> includes_plain g = true ->
+  descriptor_of f = descriptor_of g -> project_a f = project_a g.
+Proof.
+  intros Hf1 Hf2 Hf3 Hg1 Hg2 Hg3 E.
+  rewrite <- (descriptor_faithful f Hf1 Hf2 Hf3), <- (descriptor_faithful g Hg1 Hg2 Hg3), E. reflexivity.
+Qed.
